@@ -1307,6 +1307,13 @@ class Controller:
     def on_classic_sco_connection_complete(
         self, peer_address: hci.Address, status: int, link_type: int
     ) -> None:
+        if (
+            status == hci.HCI_ErrorCode.SUCCESS
+            and peer_address not in self.classic_connections
+        ):
+            # The ACL connection went away while the link was being set up
+            status = hci.HCI_ErrorCode.CONNECTION_FAILED_TO_BE_ESTABLISHED_ERROR
+
         if status == hci.HCI_ErrorCode.SUCCESS:
             # Allocate (or reuse) a connection handle
             connection_handle = self.allocate_connection_handle()
